@@ -1055,7 +1055,7 @@ def main():
 
   from vlib.rtc import explore
   explore.explore(rep, "checks.C20", "PositionsMonitor", n_quick=48, n_thorough=6000,
-                  budget_quick_s=6, budget_thorough_s=240, procs=6 if tier == "quick" else None)
+                  budget_quick_s=6, budget_thorough_s=240)
   # directed histories: position columns that are created on / converted over a non-empty table,
   # then used (fixed inputs, examined on every run)
   directed = [("basic", [[["AddColumn", "A", "pos", {"type": "PositionNumber", "isFormula": False}]]]),
